@@ -5,7 +5,8 @@ every case sets the target/source/bystander contents through raw DuckDB, runs ON
 two) through a fakesnow cursor, and compares, against the reference semantics in mc/ref/merge_ref.py,
   C12.no_exception     a MERGE of the domain executes (and one that must store NULL in a NOT NULL column raises)
   C12.target_rows      target afterwards == reference (multiset; read through raw DuckDB on another connection)
-  C12.touches_nothing_else   source rows, bystander rows and the list of (non-temporary) tables are unchanged
+  C12.touches_nothing_else   source rows, bystander rows, the list of (non-temporary) tables and every same-named table
+                       in another schema / database (decoys of the target and source in the current schema) are unchanged
   C12.status_columns   the status row has exactly the columns of the clause kinds present
   C12.status_counts    each count == reference count, as int, 0 when none (one status row)
   C12.rowcount         cursor.rowcount == sum of the counts
@@ -227,10 +228,58 @@ SPELLINGS = {
     "db_q_src_alias": ("{T}", "{T}", "db1.s1.s {AS} src", "src", "upper", False, False, None),
     "db_q_alias_both": ("db1.s1.{T} {AS} tgt", "tgt", "db1.s1.s {AS} src", "src", "upper", False, False, None),
 }
+# Placement: the session's current database/schema is always db1.s1. In the spellings above every table lives there, so
+# a qualifier that gets lost on the way is invisible. In the spellings below the real target and/or source live in
+# another schema (db1.s2) or another database (db2.s1 -- same schema NAME as the current one -- and db2.s2) and are
+# addressed by schema-qualified or fully qualified names; db1.s1 holds same-named DECOY tables with other contents, and
+# every copy of t / t3 / s that is not the statement's target must stay unchanged (C12.touches_nothing_else).
+SPELLINGS.update(
+    {
+        "x_schema_tgt": ("s2.{T}", "{T}", "s", "s", "upper", False, False, None),
+        "x_schema_tgt_alias": ("s2.{T} {AS} tgt", "tgt", "s", "s", "upper", True, False, None),
+        "x_db_tgt": ("db2.s2.{T}", "{T}", "s", "s", "upper", False, False, None),
+        "x_db_tgt_lower": ("db2.s2.{T} tgt", "tgt", "s", "s", "lower", False, False, None),
+        "x_db_tgt_full": ("db2.s2.{T}", "db2.s2.{T}", "s", "s", "upper", False, False, None),
+        "x_db_tgt_same_schema_name": ("db2.s1.{T}", "{T}", "s", "s", "upper", False, False, None),
+        "x_schema_src": ("{T}", "{T}", "s2.s", "s", "upper", False, False, None),
+        "x_db_src": ("{T}", "{T}", "db2.s1.s", "s", "upper", False, False, None),
+        "x_db_src_alias": ("{T}", "{T}", "db2.s2.s {AS} src", "src", "upper", False, False, None),
+        "x_subq_src": ("{T}", "{T}", "({SELECT} k, v, f {FROM} s2.s) {AS} src", "src", "upper", False, False, None),
+        "x_schema_both": ("s2.{T}", "{T}", "s2.s", "s", "upper", False, False, None),
+        "x_db_both_alias": ("db2.s2.{T} {AS} tgt", "tgt", "s2.s {AS} src", "src", "upper", False, False, None),
+    }
+)
+# where the real tables of a spelling live (default: the current schema)
+HOME = "db1.s1"
+LOCS = ("db1.s1", "db1.s2", "db2.s1", "db2.s2")
+PLACEMENT = {
+    "x_schema_tgt": ("db1.s2", HOME),
+    "x_schema_tgt_alias": ("db1.s2", HOME),
+    "x_db_tgt": ("db2.s2", HOME),
+    "x_db_tgt_lower": ("db2.s2", HOME),
+    "x_db_tgt_full": ("db2.s2", HOME),
+    "x_db_tgt_same_schema_name": ("db2.s1", HOME),
+    "x_schema_src": (HOME, "db1.s2"),
+    "x_db_src": (HOME, "db2.s1"),
+    "x_db_src_alias": (HOME, "db2.s2"),
+    "x_subq_src": (HOME, "db1.s2"),
+    "x_schema_both": ("db1.s2", "db1.s2"),
+    "x_db_both_alias": ("db2.s2", "db1.s2"),
+}
+DECOY_T = [(1, "decoy1"), (3, "decoy3")]  # db1.s1.t / t3 when the real target lives elsewhere
+DECOY_S = [(1, "D1", 0), (2, "D2", 1), (4, "D4", 1)]  # db1.s1.s when the real source lives elsewhere
+
+
+def placement(spelling):
+    return PLACEMENT.get(spelling, (HOME, HOME))
+
+
 SPELLING_IDS = tuple(SPELLINGS)
 QUICK_SPELLINGS = (
     "plain", "lower", "set_qual", "ident_case", "alias_src", "alias_tgt", "alias_both_noas", "subq", "subq_filter", "db_q",
     "db_q_full", "db_q_tgt", "db_q_tgt_full", "db_q_src",
+    "x_schema_tgt", "x_schema_tgt_alias", "x_db_tgt", "x_db_tgt_same_schema_name", "x_schema_src", "x_db_src_alias",
+    "x_subq_src", "x_db_both_alias",
 )  # fmt: skip
 
 
@@ -374,7 +423,7 @@ def enumerate_cases(tier):
     for tk, sk in contents:
         for spec in NOTNULL_LISTS:
             cases.append(("notnull", tk, sk, ((spec, "plain"),)))
-    for sp in ("subq", "db_q_tgt", "alias_tgt_setq") if not quick else ("subq",):
+    for sp in ("subq", "db_q_tgt", "alias_tgt_setq", "x_schema_tgt", "x_db_both_alias") if not quick else ("subq", "x_db_tgt"):
         for tk, sk in SPELL_CONTENTS[:2]:
             for spec in NOTNULL_LISTS:
                 cases.append(("notnull", tk, sk, ((spec, sp),)))
@@ -392,6 +441,9 @@ def enumerate_cases(tier):
         for tn in ("U_I", "Dc_U_I", "Uc_D") if quick else tuple(TEMPLATES):
             for tk, sk in QUICK_CONTENTS[:3] if quick else QUICK_CONTENTS:
                 cases.append((sc, tk, sk, ((TEMPLATES[tn], "plain"),)))
+    for sc in ("tx_rollback", "tx_commit"):
+        for tk, sk in SPELL_CONTENTS[:2]:
+            cases.append((sc, tk, sk, ((TEMPLATES["Dc_U_I"], "x_db_both_alias"),)))
     # G: two merges in one session (the second one finds whatever the first one left in the session)
     tns = ("U_I", "D", "Dc_Ic") if quick else tuple(TEMPLATES)
     for a in tns:
@@ -436,8 +488,17 @@ def _env():
         cur.execute("create table t3 (k int, v varchar, w varchar not null)")
         cur.execute("create table s (k int, v varchar, f int)")
         cur.execute("create table b (k int, v varchar)")
+        cur.execute("create schema s2")
+        cur.execute("create database db2")
+        cur.execute("create schema db2.s1")
+        cur.execute("create schema db2.s2")
+        for loc in LOCS[1:]:
+            cur.execute(f"create table {loc}.t (k int, v varchar)")
+            cur.execute(f"create table {loc}.t3 (k int, v varchar, w varchar not null)")
+            cur.execute(f"create table {loc}.s (k int, v varchar, f int)")
         raw = observe.raw(fs)
         raw.execute("insert into db1.s1.b values " + _vals(BYST))
+        raw.execute("SET threads TO 1")  # 16 worker processes: one engine thread each (harness-side tuning only)
         sess = conn._duck_conn  # noqa: SLF001
         _W.update(fs=fs, conn=conn, raw=raw, sess=getattr(sess, "_r", sess))
     return _W["conn"], _W["raw"], _W["sess"]
@@ -459,15 +520,22 @@ def _temp_objects(sess):
     )
 
 
-def _others(raw):
+def _others(raw, tloc=HOME, tname="t", sloc=HOME):
+    decoys = []
+    for loc in LOCS:
+        for tn in ("t", "t3", "s"):
+            if (loc, tn) not in ((tloc, tname), (sloc, "s")):
+                decoys.append((loc, tn, tuple(_norm(raw.execute(f"select * from {loc}.{tn}").fetchall()))))
     return {
+        # every copy of t / t3 / s that is neither the statement's target nor its source
+        "same_named_tables_elsewhere": tuple(decoys),
         "tables": tuple(
             raw.execute(
                 "select database_name, schema_name, table_name, sql from duckdb_tables() "
                 "where not internal and not temporary order by all"
             ).fetchall()
         ),
-        "source": tuple(_norm(raw.execute("select * from db1.s1.s").fetchall())),
+        "source": tuple(_norm(raw.execute(f"select * from {sloc}.s").fetchall())),
         "bystander": tuple(_norm(raw.execute("select * from db1.s1.b").fetchall())),
         # fakesnow's own record of comments / VARCHAR lengths (what information_schema reports)
         "side_tables": tuple(raw.execute(SIDE.format("_fs_tables_ext")).fetchall())
@@ -475,7 +543,7 @@ def _others(raw):
     }
 
 
-def _reset(conn, raw, sess, tname, trows, srows, user_mc):
+def _reset(conn, raw, sess, tname, trows, srows, user_mc, tloc=HOME, sloc=HOME):
     # leftovers of an earlier case (only possible after a violation): transaction, temp objects, user table
     try:
         sess.execute("ROLLBACK")
@@ -486,13 +554,17 @@ def _reset(conn, raw, sess, tname, trows, srows, user_mc):
     raw.execute("drop table if exists db1.s1.MERGE_CANDIDATES")
     for side in ("_fs_tables_ext", "_fs_columns_ext"):
         raw.execute(f"delete from db1.information_schema.{side} where ext_table_name = 'MERGE_CANDIDATES'")
-    for tn in ("t", "t3"):
-        raw.execute(f"delete from db1.s1.{tn}")
-    raw.execute("delete from db1.s1.s")
+    for loc in LOCS:
+        for tn in ("t", "t3", "s"):
+            raw.execute(f"delete from {loc}.{tn}")
     if trows:
-        raw.execute(f"insert into db1.s1.{tname} values " + _vals(trows))
+        raw.execute(f"insert into {tloc}.{tname} values " + _vals(trows))
     if srows:
-        raw.execute("insert into db1.s1.s values " + _vals(srows))
+        raw.execute(f"insert into {sloc}.s values " + _vals(srows))
+    if tloc != HOME:  # same-named decoy in the current schema
+        raw.execute(f"insert into {HOME}.{tname} values " + _vals([r + (("dw",) if tname == "t3" else ()) for r in DECOY_T]))
+    if sloc != HOME:
+        raw.execute(f"insert into {HOME}.s values " + _vals(DECOY_S))
     if user_mc:
         # through fakesnow, so that the table has a recorded comment and VARCHAR length like any user table
         conn.cursor().execute("create table merge_candidates (x varchar(10)) comment = 'mine'")
@@ -514,13 +586,13 @@ def _lists_helper(res, name_col):
     return any(str(r[name_col]).lower() == "merge_candidates" for r in res[1])
 
 
-def execute_step(scenario, tname, sql):
+def execute_step(scenario, tname, sql, tloc=HOME, sloc=HOME):
     """run one MERGE on the worker's session and observe; pre-state must have been set. -> observation dict"""
     from snowflake.connector.cursor import DictCursor
 
     conn, raw, sess = _env()
-    pre_t = _norm(raw.execute(f"select * from db1.s1.{tname}").fetchall())
-    pre_others = _others(raw)
+    pre_t = _norm(raw.execute(f"select * from {tloc}.{tname}").fetchall())
+    pre_others = _others(raw, tloc, tname, sloc)
     cur = conn.cursor()
     in_tx = scenario in ("tx_rollback", "tx_commit")
     if in_tx:
@@ -534,16 +606,24 @@ def execute_step(scenario, tname, sql):
         got = ("err", f"{type(e).__module__}.{type(e).__name__}", str(e).split("\n")[0][:100])
     o = {"got": got, "pre_t": pre_t}
     if in_tx:
-        o["own_view"] = _norm(sess.execute(f"select * from db1.s1.{tname}").fetchall())
-        cur.execute("ROLLBACK" if scenario == "tx_rollback" else "COMMIT")
+        # (after a failed statement DuckDB has aborted the user's transaction: nothing is demanded then, see docstring)
+        try:
+            o["own_view"] = _norm(sess.execute(f"select * from {tloc}.{tname}").fetchall())
+        except Exception:  # noqa: BLE001
+            o["own_view"] = "transaction aborted"
+        o["tx_end"] = _fs(cur, "ROLLBACK" if scenario == "tx_rollback" else "COMMIT")[0]
     # did the statement leave a transaction open on the session?  (decided from effects: a raw ROLLBACK succeeds)
     try:
         sess.execute("ROLLBACK")
         o["tx_left_open"] = True
     except Exception:  # noqa: BLE001
         o["tx_left_open"] = False
-    o["post_t"] = _norm(raw.execute(f"select * from db1.s1.{tname}").fetchall())
-    o["others_same"] = {k: v == pre_others[k] for k, v in _others(raw).items()}
+    o["post_t"] = _norm(raw.execute(f"select * from {tloc}.{tname}").fetchall())
+    post_others = _others(raw, tloc, tname, sloc)
+    o["others_same"] = {k: v == pre_others[k] for k, v in post_others.items()}
+    o["elsewhere_changed"] = [
+        (a[0], a[1], list(a[2])) for b, a in zip(pre_others["same_named_tables_elsewhere"], post_others["same_named_tables_elsewhere"]) if a != b
+    ]
     o["new_temp"] = _temp_objects(sess)  # the harness creates none and _reset removed all: anything here is a leftover
     if scenario == "follow":
         o["resolves"] = _fs(cur, "select * from merge_candidates")
@@ -669,7 +749,8 @@ def judge(scenario, tname, spec, spelling, srows, o):
         if what == "side_tables" and scenario == "usertable":
             continue  # judged below as part of C12.helper_user_table
         if not same:
-            viol.append(("C12.touches_nothing_else", f"changed={what},after={got[0]}", {"got": got}))
+            det = {"got": got, "now": o["elsewhere_changed"]} if what == "same_named_tables_elsewhere" else {"got": got}
+            viol.append(("C12.touches_nothing_else", f"changed={what},after={got[0]}", det))
 
     # -- status row, rowcount
     if got[0] == "ok" and not ref["error"]:
@@ -753,11 +834,13 @@ def case(item, acc: core.Acc, tier):
     tname = "t3" if scenario == "notnull" else "t"
     conn, raw, sess = _env()
     trows, srows = target_rows(tk, three=tname == "t3"), source_rows(sk)
-    _reset(conn, raw, sess, tname, trows, srows, scenario == "usertable")
+    tloc, sloc = placement(steps[0][1])
+    assert all(placement(sp) == (tloc, sloc) for _spec, sp in steps), "the steps of one case share their tables"
+    _reset(conn, raw, sess, tname, trows, srows, scenario == "usertable", tloc, sloc)
     out = []
     for si, (spec, spelling) in enumerate(steps):
         sql = render(spec, spelling, tname)
-        o = execute_step(scenario, tname, sql)
+        o = execute_step(scenario, tname, sql, tloc, sloc)
         acc.count("evaluations")
         acc.count("merges_executed")
         viol, memb, ref = judge(scenario, tname, spec, spelling, srows, o)
@@ -789,9 +872,11 @@ def run(ctx: core.Ctx):
         "conditions assigned injectively, every 3-clause kind list with rotating conditions; every 3-clause list with "
         "injective conditions x 16 contents. B: every spelling x every kind list x 3 contents. C: SET forms x INSERT "
         "forms x 100 contents (+ x spellings). D: NOT NULL target column (statement must fail as a whole) x all contents. "
+        "B also holds the placement spellings: target and/or source in another schema (db1.s2) or database (db2.s1, "
+        "db2.s2) than the current db1.s1, schema- or fully qualified, with same-named decoy tables in db1.s1. "
         "E: follow-up observations of the session (helper table; user table of the same name) x spellings. F: MERGE "
         "inside BEGIN..ROLLBACK/COMMIT. G: two merges in one session. H: conditions `a OR b` without parentheses x all "
-        "contents. quick = 16 contents, rotating conditions, 14 spellings, reduced B-H. non-trivial = distinct "
+        "contents. quick = 16 contents, rotating conditions, 22 spellings, reduced B-H. non-trivial = distinct "
         "(scenario, pre-state, source, clauses, spelling) for which the reference affects >= 1 row or demands an error"
     )
     ctx.assumptions = [
